@@ -161,6 +161,11 @@ def run(chk, lite=False):
                 "observation tail, in dynamic and static payload modes; plus random depth-40 histories; distinct = traces")
     r = tlc.mc("Nrf24Fifo", timeout=600)
     chk.add_tlc(r, "chip FIFO/STATUS model invariants")
+    if not lite:
+        # keeping the double honest: every edge of the ESB chip model replayed on harness/sim.py (exit 2 on disagreement)
+        from checks import chipconf
+        chipconf.conformance(chk, "Nrf24Chip_quick" if chk.tier == "quick" else "Nrf24Chip")
+        chk.phase("double conformance")
     jobs, rnd = build(chk, lite)
     with ProcessPoolExecutor(16) as ex:
         traces = list(ex.map(scenario, jobs, chunksize=32)) + list(ex.map(random_history, rnd, chunksize=8))
